@@ -140,7 +140,7 @@ Proof.
   destruct (cget (d_invs d) (callee, req)) as [inv|] eqn:Hi.
   - rewrite (sync_yield_owner _ _ _ _ _ _ _ Hi). cbn [fst].
     destruct (opt_bool opts "progress"); [repeat split; reflexivity|].
-    destruct (inv_inprogress inv); unfold regs_side_eq, yield_state, drop_call; dproj;
+    unfold regs_side_eq, yield_state, drop_call; dproj;
       rewrite ?ct_exact, ?ct_pfx, ?ct_wc, ?ct_regs, ?ct_callee_regs, ?ct_idgen; repeat split; reflexivity.
   - rewrite sync_yield_unknown by assumption. repeat split; reflexivity.
 Qed.
